@@ -82,6 +82,12 @@ pub fn main() {
                 }
             }
         }
+        "keccak" => {
+            // vcheck keccak <hex>: keccak-256 of the bytes
+            use sha3::Digest;
+            let data = hex::decode(args[2].trim_start_matches("0x")).expect("hex");
+            println!("{}", hex::encode(sha3::Keccak256::digest(&data)));
+        }
         "analyze" => {
             // vcheck analyze <hex> [permissive]
             let code = hex::decode(args[2].trim_start_matches("0x")).expect("hex");
